@@ -46,6 +46,12 @@ Theorem C30_store_mutex : forall s, reachable builds_system s ->
   p_id pr1 = p_id pr2.
 Proof. exact store_mutex. Qed.
 
+(* the store used although its lock could not be taken (LockResult::Unavailable): two unlocked
+   store sections; manifest and blob reads are still complete because the writes are atomic *)
+Theorem C30_store_without_lock_reads_complete :
+  forall s, reachable nolock_system s -> nolock_safe s = true.
+Proof. exact store_without_lock_reads_complete. Qed.
+
 (* the language-server program contains no blocking lock step ... *)
 Theorem C30_ls_no_blocking_lock : forall pid m1 m2, no_blocking_lock (ls_prog pid m1 m2) = true.
 Proof. exact ls_no_blocking_lock. Qed.
@@ -99,6 +105,7 @@ Print Assumptions C30_atomic_write_no_torn_read.
 Print Assumptions C30_in_place_write_torn.
 Print Assumptions C30_two_builds_safe.
 Print Assumptions C30_store_mutex.
+Print Assumptions C30_store_without_lock_reads_complete.
 Print Assumptions C30_ls_no_blocking_lock.
 Print Assumptions C30_build_and_ls_safe.
 Print Assumptions C30_two_ls_safe.
